@@ -10,7 +10,8 @@
 //! Operations (`p<i>` = peer number, peers 1..=3 have a dialable address):
 //!
 //! * `pnew`                                   fresh protocol instance
-//! * `conn <p>` / `disc <p>` / `conndead <p>` connection established / closed / its command channel gone
+//! * `conn <p> [dead]` / `disc <p>` / `conndead <p>` connection established (its command channel already
+//!   gone) / closed / its command channel gone
 //! * `dialfail <p>`                           `DialFailure`
 //! * `view <p> c|g|d`                         the manager's view of the peer (connected/dialing/disconnected)
 //! * `subopen s<n> [fail=<k>[.<off>]|stall=<k>]`  answer an `OpenSubstream` command with an outbound
@@ -803,8 +804,14 @@ impl Session {
         let n = |s: &str| s.parse::<u64>().ok().filter(|p| (1..=9).contains(p));
         let bad = || "bad-op".to_string();
         let res: String = match t.as_slice() {
-            ["conn", p] => {
+            ["conn", p, rest @ ..] => {
                 let Some(p) = n(p) else { return bad() };
+                // `dead`: the connection task is already gone when the event is handled
+                let dead = match rest {
+                    [] => false,
+                    ["dead"] => true,
+                    _ => return bad(),
+                };
                 if self.conns.contains_key(&p) {
                     "none".into()
                 } else {
@@ -822,7 +829,7 @@ impl Session {
                             sender: ConnectionHandle::new(ConnectionId::from(id), tx.clone()),
                         })
                         .await;
-                    self.conns.insert(p, Conn { id, tx, rx: Some(rx) });
+                    self.conns.insert(p, Conn { id, tx, rx: if dead { None } else { Some(rx) } });
                     "ok".into()
                 }
             }
